@@ -216,8 +216,56 @@ func (H) Execute(scAny any, cfg simrt.Config, st *core.Stats) (*simrt.Outcome, *
 		var s lists.Stack[int]
 		var model []int
 		next := 0
+		// a second container of the same kind lives next to the first and is pushed
+		// to and popped from between its calls: two values of the type share nothing
+		var q2 lists.Queue[int]
+		var s2 lists.Stack[int]
+		var model2 []int
+		other := func(i int) bool {
+			if (i/3)%3 != 2 {
+				val := 100000 + i
+				if sc.Kind == "queue" {
+					q2.Enqueue(val)
+				} else {
+					s2.Push(val)
+				}
+				model2 = append(model2, val)
+				return true
+			}
+			var got int
+			var ok bool
+			if sc.Kind == "queue" {
+				got, ok = q2.Dequeue()
+			} else {
+				got, ok = s2.Pop()
+			}
+			n := len(s2)
+			if sc.Kind == "queue" {
+				n = q2.Len()
+			}
+			if len(model2) == 0 {
+				if ok || got != 0 || n != 0 {
+					v = &core.Violation{Signature: sc.Kind + ":second-container", Detail: fmt.Sprintf("after op %d of %s %q: the second, empty container returned (%d,%v), Len=%d", i, sc.Kind, sc.Ops, got, ok, n)}
+					return false
+				}
+				return true
+			}
+			idx := 0
+			if sc.Kind == "stack" {
+				idx = len(model2) - 1
+			}
+			if !ok || got != model2[idx] || n != len(model2)-1 {
+				v = &core.Violation{Signature: sc.Kind + ":second-container", Detail: fmt.Sprintf("after op %d of %s %q: the second container returned (%d,%v), Len=%d; want (%d,true), Len=%d", i, sc.Kind, sc.Ops, got, ok, n, model2[idx], len(model2)-1)}
+				return false
+			}
+			model2 = append(model2[:idx], model2[idx+1:]...)
+			return true
+		}
 		for i := 0; i < len(sc.Ops); i++ {
 			simrt.Yield()
+			if i%3 == 1 && !other(i) {
+				return
+			}
 			fail := func(sig, format string, a ...any) {
 				v = &core.Violation{Signature: sc.Kind + ":" + sig, Detail: fmt.Sprintf("op %d '%c' of %s %q: ", i, sc.Ops[i], sc.Kind, sc.Ops) + fmt.Sprintf(format, a...)}
 			}
@@ -282,6 +330,16 @@ func (H) Execute(scAny any, cfg simrt.Config, st *core.Stats) (*simrt.Outcome, *
 					fail("len-mismatch", "Len=%d want %d", n, len(model))
 					return
 				}
+			}
+		}
+		// the second container still holds exactly what was left in it
+		for len(model2) > 0 {
+			n2 := len(model2)
+			if !other(6) { // (6/3)%3 == 2: a removal
+				return
+			}
+			if len(model2) != n2-1 {
+				break
 			}
 		}
 		// what is still inside at the end comes out in order too, down to the empty case
